@@ -208,3 +208,149 @@ fn dir_remove_all_scan_enotempty() {
 fn dir_remove_all_open_eacces() {
     remove_all_body_e([P_FAIL, P_FAIL, P_FAIL], libc::EACCES);
 }
+
+
+// ---------------------------------------------------------------------------
+// Decomposition of the slow path (both removals failed): `remove_inode` is decided on its
+// own (`dir_remove_inode_contract`) and replaced by its contract in the scan harnesses —
+// its body moves 19-variant `syscalls::Error` values by value through two closures, which
+// together with the rest of remove_all exceeded 14 GB / 15 min in one query.
+
+/// contract of `remove_inode(dirfd, name)`: Ok if unlink or rmdir succeeded, else an
+/// OsError-class error carrying the reported errno
+pub(crate) fn k_remove_inode<Fd: AsFd>(dirfd: Fd, name: &Path) -> Result<(), Error> {
+    let raw = dirfd.as_fd().as_raw_fd();
+    let (nm, nl) = copy_name(name);
+    let k = kmut();
+    k.touch(raw);
+    let mut c = NO_CALL;
+    c.kind = C_UNLINKAT;
+    c.dirfd = raw;
+    c.name = nm;
+    c.name_len = nl;
+    c.flags = 0xbeef; // "unlink-or-rmdir of (dirfd, name)"
+    if k.fails() {
+        c.errno = any_errno();
+        k.push(c);
+        Err(ErrorImpl::OsError {
+            operation: "remove inode".into(),
+            source: std::io::Error::from_raw_os_error(c.errno),
+        }
+        .into())
+    } else {
+        c.ok = true;
+        k.push(c);
+        Ok(())
+    }
+}
+
+/// the real remove_inode against K
+#[kani::proof]
+#[kani::unwind(8)]
+#[kani::stub(crate::syscalls::unlinkat, k_unlinkat)]
+#[kani::stub(alloc::fmt::format, k_format)]
+fn dir_remove_inode_contract() {
+    install_close_model();
+    reset(3);
+    let d = given_fd(true);
+    let res = remove_inode(borrow_fd(d), Path::new("n"));
+    let (ok, kind) = match &res {
+        Ok(()) => (true, None),
+        Err(e) => (false, Some(cheap_kind(e))),
+    };
+    std::mem::forget(res);
+    let k = kref();
+    assert!(k.ncalls >= 1 && k.log[0].kind == C_UNLINKAT && k.log[0].flags == 0 && k.log[0].dirfd == d);
+    if k.log[0].ok {
+        assert!(ok && k.ncalls == 1);
+    } else {
+        assert!(k.ncalls == 2 && k.log[1].kind == C_UNLINKAT && k.log[1].flags == libc::AT_REMOVEDIR as u64 && k.log[1].dirfd == d);
+        if k.log[1].ok {
+            assert!(ok);
+        } else {
+            let e = if k.log[1].errno == libc::ENOTDIR { k.log[0].errno } else { k.log[1].errno };
+            assert!(!ok && kind == Some(ErrorKind::OsError(Some(e))));
+        }
+    }
+    kani::cover!(ok && k.ncalls == 1, "unlinked");
+    kani::cover!(ok && k.ncalls == 2, "rmdir-ed");
+    kani::cover!(!ok, "both failed");
+}
+
+fn scan_body(plan: [u8; 4], fixed_errno: i32) {
+    install_close_model();
+    reset(3);
+    let d = given_fd(true);
+    {
+        let k = kmut();
+        let mut i = 0;
+        while i < 4 {
+            k.plan[i] = plan[i];
+            i += 1;
+        }
+        k.fixed_errno = fixed_errno;
+    }
+    let buf: [u8; PATH_L] = kani::any();
+    let len: usize = kani::any();
+    kani::assume(len <= PATH_L);
+    let nameb = &buf[..len];
+    kani::assume(!refused(nameb));
+    let res = remove_all(borrow_fd(d), Path::new(OsStr::from_bytes(nameb)));
+    let (ok, kind) = match &res {
+        Ok(()) => (true, None),
+        Err(e) => (false, Some(cheap_kind(e))),
+    };
+    std::mem::forget(res);
+    let k = kref();
+    assert!(!k.any_violation());
+    // [0] remove_inode fails (not ENOENT) -> [1] scan open
+    assert!(k.ncalls >= 2 && k.log[0].flags == 0xbeef && !k.log[0].ok);
+    let c = k.log[1];
+    assert!(c.kind == C_OPENAT && c.dirfd == d && bytes_eq(&c.name, c.name_len, nameb, len));
+    // the scan open never follows a link and only opens directories
+    let want = (libc::O_DIRECTORY | libc::O_NOFOLLOW) as u64;
+    assert!(c.flags & want == want, "directory scan open may follow a symlink");
+    assert!(c.flags & (libc::O_CREAT | libc::O_TRUNC) as u64 == 0);
+    if !c.ok {
+        // a failing scan open is reported -- success only for "already gone"
+        assert!(k.ncalls == 2);
+        if c.errno == libc::ENOENT {
+            assert!(ok);
+        } else {
+            assert!(!ok && kind == Some(ErrorKind::OsError(Some(c.errno))), "failed scan open reported as success");
+        }
+    } else {
+        let r = k.log[2];
+        assert!(k.ncalls >= 3 && r.kind == C_READDIR && r.dirfd == c.ret_fd);
+        if r.errno != libc::ENOENT {
+            assert!(k.ncalls == 3 && !ok && kind == Some(ErrorKind::OsError(Some(r.errno))));
+        } else {
+            // listing says "gone": one more removal attempt on the same (dir, name)
+            assert!(k.ncalls == 4 && k.log[3].flags == 0xbeef && k.log[3].dirfd == d);
+            assert!(bytes_eq(&k.log[3].name, k.log[3].name_len, nameb, len));
+            assert!(ok == (k.log[3].ok || k.log[3].errno == libc::ENOENT));
+        }
+    }
+    assert!(k.n_open() == 1 && k.ent(d).unwrap().open);
+    kani::cover!(!ok && k.ncalls == 2, "scan open failed");
+    kani::cover!(k.ncalls == 3, "listing failed");
+    kani::cover!(k.ncalls == 4, "directory vanished while scanning");
+}
+
+macro_rules! scan_h {
+    ($name:ident, $plan:expr, $errno:expr) => {
+        #[kani::proof]
+        #[kani::unwind(8)]
+        #[kani::stub(crate::utils::dir::remove_inode, k_remove_inode)]
+        #[kani::stub(crate::syscalls::openat_follow, k_openat_follow)]
+        #[kani::stub(rx::fs::Dir::read_from, k_dir_read_from)]
+        #[kani::stub(alloc::fmt::format, k_format)]
+        fn $name() {
+            scan_body($plan, $errno);
+        }
+    };
+}
+// removal failed with EACCES, the scan open fails with EACCES too (unreadable / undeletable entry)
+scan_h!(dir_scan_open_fails, [P_FAIL, P_FAIL, P_ANY, P_ANY], libc::EACCES);
+// removal failed with ENOTEMPTY, scan open succeeds, listing fails with an arbitrary errno
+scan_h!(dir_scan_listing, [P_FAIL, P_OK, P_ANY, P_ANY], libc::ENOTEMPTY);
